@@ -27,6 +27,7 @@ def parseFvUnfixedWith (walk : Bytes → Nat → Nat → Nat → St → Except E
   | .error e => .error e
   | .ok blocks =>
   let i := fvInfoOf data blocks fvOffset resizable
+  if 56 + 8 * (blocks.length + 1) > i.length then .error .err else
   match setPolarity (polOfAttrs i.attrs) st with
   | .error e => .error e
   | .ok st =>
